@@ -770,7 +770,7 @@ def spec_classes(spec: dict) -> list:
         classes.append("prepeptide_partial_codon_or_fuzzy")
     if any(len(v or "") >= LONG_VALUE for pair in spec.get("candidate_extras") or [] for v in pair) and spec.get("candidates", True):
         classes.append("long_smiles")
-    if any(f[3] is None and ": " in f[2] for g in genes for f in g.get("functions") or []):
+    if any(f[3] is None and ":" in f[2] for g in genes for f in g.get("functions") or []):
         classes.append("function_description_with_colon")
     if any(g.get("added_notes") and (g.get("quals") or {}).get("note") for g in genes):
         classes.append("notes_added_to_noted_gene")
@@ -886,7 +886,7 @@ NRPS_TYPES = ["NRPS", "Type I Modular PKS", "Hybrid PKS-NRPS", "PKS/NRPS-like pr
 DESCRIPTIONS = ["SMCOG1000: ABC transporter ATP-binding protein", "SMCOG1127: condensation domain-containing protein",
                 "AMP-binding", "KS (Score: 123.4; E-value: 1.2e-30)", "RF0001: multidrug resistance",
                 "MITE0000001: halogenase (87% identity)", "predicted lanthipeptide", "TIGR03731",
-                "EC 2.3.1.41; acyltransferase", "PF00109"]
+                "EC 2.3.1.41; acyltransferase", "PF00109", "EC:2.3.1.41"]
 PLAIN_DESCRIPTIONS = ["AMP-binding", "predicted lanthipeptide", "TIGR03731", "PF00109", "PKS_KS", "halogenase",
                       "EC 2.3.1.41; acyltransferase", "KS (Score 123.4; E-value 1.2e-30)"]
 MISC_TYPES = ["misc_feature", "regulatory", "tRNA", "repeat_region", "misc_RNA", "RBS", "mobile_element", "primer_bind"]
